@@ -1,6 +1,9 @@
 package hx
 
-import "time"
+import (
+	"fmt"
+	"time"
+)
 
 // CorpusEntry is a hand-written history kept because it once exposed a
 // deviation: the witnesses of the repaired defects (they must pass now) and
